@@ -19,6 +19,7 @@ class RecHW(HardwareLayerBase):
         self.write_log: list[tuple[str, Any]] = []
         self.fail_reads = False
         self.fail_writes = False
+        self.sink = None            # optional shared event list (interleaves writes with UOD command events)
 
     def read(self, r: Register):
         if self.fail_reads:
@@ -30,6 +31,8 @@ class RecHW(HardwareLayerBase):
             raise HardwareLayerException("scripted write failure")
         self.mem[r.name] = value
         self.write_log.append((r.name, value))
+        if self.sink is not None:
+            self.sink.append(("hw", r.name, value))
 
     def connect(self):
         self._is_connected = True
@@ -38,7 +41,8 @@ class RecHW(HardwareLayerBase):
         self._is_connected = False
 
 
-def make_uod(cmd_log: list | None = None, outputs_safe=(("Out1", 0.0), ), outputs_plain=("Out2", ), with_acc=True, now_fn=None):
+def make_uod(cmd_log: list | None = None, outputs_safe=(("Out1", 0.0), ), outputs_plain=("Out2", ), with_acc=True, now_fn=None,
+             id_in_log=False):
     """UOD with: input FT01 [L/h], Vol [L] (totalizer), outputs with/without safe value, tags X, Y (plain),
     category tag Cat, commands: Run<k> style scripted commands"""
     from openpectus.lang.exec.uod import UodBuilder, UodCommand
@@ -48,11 +52,11 @@ def make_uod(cmd_log: list | None = None, outputs_safe=(("Out1", 0.0), ), output
 
     def mk(name):
         def init_fn(cmd: UodCommand):
-            log.append(("init", name, id(cmd)))
+            log.append(("init", name, cmd.instance_id if id_in_log else id(cmd)))
 
         def exec_fn(cmd: UodCommand, value: str = ""):
             n = cmd.get_iteration_count()
-            log.append(("exec", name, id(cmd), n))
+            log.append(("exec", name, cmd.instance_id if id_in_log else id(cmd), n))
             arg = (value or "").strip()
             dur = 0
             fail_at = None
@@ -70,7 +74,7 @@ def make_uod(cmd_log: list | None = None, outputs_safe=(("Out1", 0.0), ), output
                 cmd.set_complete()
 
         def fin_fn(cmd: UodCommand):
-            log.append(("final", name, id(cmd)))
+            log.append(("final", name, cmd.instance_id if id_in_log else id(cmd)))
         return init_fn, exec_fn, fin_fn
 
     b = (UodBuilder().with_instrument("VerifUod").with_author("v", "v@example.invalid").with_filename(__file__)
